@@ -202,6 +202,8 @@ func (h *harness) run() {
 		r.Note(fmt.Sprintf("time %s: %.1fs", what, time.Since(t0).Seconds()))
 		t0 = time.Now()
 	}
+	h.coroSection(string(snapText))
+	lap("coroutine frames")
 	h.probeSection(probes)
 	lap("probes")
 	h.stdObjSection(stdStructs)
